@@ -307,7 +307,9 @@ def main():
             'serves_properties': [c['property_id'] for c in checks],
             'kind_free_text': 'explicit TLA+ specifications under spec/ checked by TLC 1.8; behaviours/cases generated by TLC '
                               'are replayed into the real pyiga code (M1) and events recorded from the real code are validated '
-                              'by TLC trace specifications (M2); harness in harness/',
+                              'by TLC trace specifications (M2); harness in harness/. One addition outside TLC: the '
+                              'chunking arithmetic of C08 (spec/ChunksProof.tla) is proved for all lengths with TLAPS and tied '
+                              'to the bounded model by the invariant ChunksAsProved',
         }],
         'checks': checks,
         'notes': 'One entry point: ./check <id> --tier quick|thorough. Exit 0 held / 1 VIOLATION / 2 machinery failure. '
